@@ -1,5 +1,7 @@
 import Gp.Lemmas.AsmSeq
 import Gp.Lemmas.AsmPool
+import Gp.Lemmas.AsmWrap
+import Gp.Lemmas.AsmGap
 /-
   C10 — tcpassembly: TCP bytes delivered in order, exactly once, gaps announced.
 
@@ -40,9 +42,7 @@ def WfOp : Op → Prop
     panic): every history runs to completion. -/
 theorem asm_no_wtf (ops : List Op) (hwf : ∀ op ∈ ops, WfOp op) :
     ∃ x, run wrapArith {} ops = .ok x := by
-  have hA : ∀ x, wrapArith.diff x x ≤ 0 := fun x => by
-    show SeqAsm.difference x x ≤ 0
-    rw [difference_self]; exact Int.le_refl 0
+  have hA := wrap_diff_self
   obtain ⟨x, hx, _⟩ := run_preserves (noWtf_connInv wrapArith hA) {} ops (poolAll_empty _) (by
     intro op hop
     have := hwf op hop
@@ -57,5 +57,106 @@ theorem asm_no_wtf (ops : List Op) (hwf : ∀ op ∈ ops, WfOp op) :
 /-- the guard is not vacuous: a state with the first page at nextSeq does panic -/
 example : insertIntoConn wrapArith {} ⟨5, [⟨5, ⟨[], 0, false, false, 0⟩⟩], 1, 0, 0⟩ 1 9 [1] false 0
     = .panic .explicit := by decide
+
+/-! ## 3. Soundness: in order, exactly once, nothing altered — for every history
+
+  Vocabulary (`Gp/Model/AsmSpec.lean`): `SegOk snd s` — segment `s` carries the bytes of its sender's
+  stream at the position its sequence number says (SYN at `isn`, byte `j` at `isn+1+j` mod 2^32);
+  `replay S pos items pos'` — the observer replays the delivered items against `S`
+  (`pos += skip; bytes = S[pos : pos+len]; pos += len`; the first item either carries Start and is a
+  prefix of `S`, or has skip −1 and is some slice of `S`);  `itemsOf key sid evs` — everything
+  delivered to stream number `sid` of connection `key`. -/
+
+/-- **asm_sound.**  Fix for every connection a sender stream `S` (shorter than 2^30) and an initial
+    sequence number anywhere in the 32-bit space.  For EVERY history of operations whose segments are
+    consistent with their senders — any segmentation, any arrival order, any duplication and
+    overlapping retransmission, SYN first / late / never / retransmitted with data, FIN/RST, any
+    number of interleaved connections, any interleaved FlushOlderThan / FlushWithOptions / FlushAll,
+    any page limits and limit changes — the real-arithmetic model runs without panic and, for every
+    stream it ever created, the delivered items replay against the sender's stream: no byte is
+    duplicated, reordered, altered or invented, and every skip is accounted for. -/
+theorem asm_sound (snd : Nat → Sender) (hsnd : SendersOk snd) (ops : List Op)
+    (hops : ∀ op ∈ ops, OpOk snd op) :
+    ∃ P outs, run wrapArith {} ops = .ok (P, outs) ∧
+      ∀ key sid, ∃ pos, replay (snd key).S none (itemsOf key sid (allEvs outs)) pos := by
+  obtain ⟨P, outs, h1, Pf, h2, _⟩ := wrap_sound snd hsnd ops hops
+  exact ⟨P, outs, h1, fun key sid => h2.all key sid⟩
+
+/-- hypotheses of `asm_sound` are satisfiable by a non-trivial history: a 3-byte stream whose
+    sequence numbers straddle the 2^32 wrap, delivered out of order with a retransmission. -/
+example : ∃ (snd : Nat → Sender) (ops : List Op), SendersOk snd ∧ (∀ op ∈ ops, OpOk snd op) ∧ ops.length = 4 := by
+  refine ⟨fun _ => ⟨[1, 2, 3], 4294967294⟩,
+    [.seg ⟨0, 4294967294, true, false, false, 0, []⟩,
+     .seg ⟨0, 0, false, false, false, 1, [2, 3]⟩,
+     .seg ⟨0, 4294967295, false, false, false, 2, [1, 2]⟩,
+     .flushAll], ?_, ?_, rfl⟩
+  · intro k; show (4294967294 : Nat) < 4294967296 ∧ [1, 2, 3].length + 2 < 1073741824; decide
+  · intro op hop
+    simp only [List.mem_cons, List.mem_nil_iff, or_false] at hop
+    rcases hop with h | h | h | h <;> subst h
+    · simp [OpOk, SegOk, slice]
+    · simp only [OpOk, SegOk]; exact ⟨1, by decide, by decide, by decide, by decide⟩
+    · simp only [OpOk, SegOk]; exact ⟨0, by decide, by decide, by decide, by decide⟩
+    · trivial
+
+/-- … and on that history the model delivers "1 2 3" in order (the retransmitted byte 2 is trimmed). -/
+example : (run wrapArith {} [.seg ⟨0, 4294967294, true, false, false, 0, []⟩,
+     .seg ⟨0, 0, false, false, false, 1, [2, 3]⟩,
+     .seg ⟨0, 4294967295, false, false, false, 2, [1, 2]⟩]).isOk = true := by decide
+
+/-! ## 4. Gaps are announced, and only when a flush or a page limit forces data out -/
+
+/-- **asm_gap_only_on_flush (1).**  In EVERY reachable state of EVERY history (consistent segments
+    or not), an `AssembleWithTimestamp` call that does not reach a page limit
+    (`limitHit` is the condition of the loop in insertIntoConn, evaluated on the page counters after
+    queueing the packet; in particular: always, when no limit is configured) delivers only items with
+    `Skip = 0`.  Skips are emitted only by Flush* and by the limit path. -/
+theorem asm_gap_only_on_flush (ops : List Op) (hwf : ∀ op ∈ ops, WfOp op) (P : Pool) (outs : List OpOut)
+    (hrun : run wrapArith {} ops = .ok (P, outs)) (s : Seg) (x : Pool × List Ev)
+    (hx : assemble wrapArith P s = .ok x)
+    (hl : limitHit P.lim (connPages P s.key + pageCount s.bytes) (P.used + pageCount s.bytes) = false) :
+    ∀ key sid items, Ev.data key sid items ∈ x.2 → ∀ r ∈ items, r.skip = 0 := by
+  have hA := wrap_diff_self
+  obtain ⟨y, hy, hP⟩ := run_preserves (skipZero_connInv wrapArith hA) {} ops (poolAll_empty _) (by
+    intro op hop
+    have := hwf op hop
+    cases op with
+    | seg s =>
+      simp only [WfOp] at this
+      simp only [OpPre, invalidSeq, SeqAsm.invalidSequence]
+      omega
+    | _ => trivial)
+  rw [hrun] at hy
+  cases hy
+  exact assemble_noskip wrapArith wrap_add_valid P s x hP hl hx
+
+/-- no limit configured ⇒ the hypothesis `limitHit … = false` of the previous theorem holds -/
+theorem asm_no_limit_no_hit (L : Lim) (h1 : L.maxPer ≤ 0) (h2 : L.maxTot ≤ 0) (np used : Int) :
+    limitHit L np used = false := by
+  unfold limitHit
+  have a : decide (L.maxPer > 0) = false := by simp; omega
+  have b : decide (L.maxTot > 0) = false := by simp; omega
+  rw [a, b]; rfl
+
+/-- **asm_gap_only_on_flush (2).**  What an emitted skip means, read off `replay` (and hence, by
+    `asm_sound`, true of every item of every stream): an item with skip −1 is the first item of a
+    stream that never saw its start; every other skip is a natural number `k`, and the bytes that
+    follow are exactly the stream `k` bytes further on — the skip equals the number of missing bytes. -/
+theorem asm_skip_exact (S : Bytes) (pos : Option Nat) (r : Reasm) (pos' : Option Nat)
+    (h : itemOk S pos r pos') :
+    (r.skip = -1 → pos = none ∧ r.start = false) ∧
+    (∀ p, pos = some p → ∃ k : Nat, r.skip = k ∧ r.bytes = slice S (p + k) r.bytes.length ∧
+      pos' = some (p + k + r.bytes.length)) := by
+  cases pos with
+  | none =>
+    refine ⟨fun _ => ⟨rfl, ?_⟩, fun p hp => by cases hp⟩
+    rcases h with h | h
+    · rename_i hs; rw [h.2.1] at hs; cases hs
+    · exact h.1
+  | some p =>
+    obtain ⟨h1, k, h2, h3, h4, h5⟩ := h
+    refine ⟨fun hs => ?_, fun q hq => ?_⟩
+    · rw [h2] at hs; omega
+    · cases hq; exact ⟨k, h2, h4, h5⟩
 
 end Gp.C10
